@@ -23,6 +23,7 @@ import (
 type healthWatch struct {
 	lastHealthy int // latest scheduler step at which the monitor rated S3 healthy
 	lastState   broker.S3HealthState
+	streakStart int // first step of the current run of not-healthy ratings (0: healthy now)
 }
 
 func (w *w1) healthStep() {
@@ -34,7 +35,11 @@ func (w *w1) healthStep() {
 	w.health.lastState = st
 	if st == broker.S3StateHealthy {
 		w.health.lastHealthy = w.sim.Step()
+		w.health.streakStart = 0
 	} else {
+		if w.health.streakStart == 0 {
+			w.health.streakStart = w.sim.Step()
+		}
 		w.sim.Probe("c25.unhealthy-step")
 	}
 }
@@ -56,8 +61,53 @@ func retriable(code int16) bool {
 	return false
 }
 
+// judgeHealthWithinRequest: partitions of one produce request are handled one after the other. When an
+// earlier partition's own upload failures have pushed the rating out of healthy and it stayed there, a
+// later partition of the same request must not be uploaded and acknowledged. Judged only when this client
+// is the only one (no concurrent request can have moved the rating in between).
+func (w *w1) judgeHealthWithinRequest(rec *produceRec) {
+	if !rec.multi || rec.order == 0 || rec.code != 0 || w.cfg("solo", 0) != 1 || w.health.streakStart == 0 {
+		return
+	}
+	myPut := 0
+	prefix := w.partPrefix(rec.topic, rec.part)
+	for _, a := range w.s3.Attempts {
+		if a.Task != "" && strings.HasPrefix(a.Task, rec.task) && strings.HasPrefix(a.Key, prefix) && a.Fault == "" && strings.HasSuffix(a.Key, ".kfs") && a.Step >= rec.invoke {
+			myPut = a.Step
+		}
+	}
+	if myPut == 0 {
+		return
+	}
+	for _, sib := range w.ledger {
+		if sib.task != rec.task || !sib.multi || sib.order >= rec.order || sib.code == 0 {
+			continue
+		}
+		sp := w.partPrefix(sib.topic, sib.part)
+		failedAt := 0
+		for _, a := range w.s3.Attempts {
+			if strings.HasPrefix(a.Task, rec.task) && strings.HasPrefix(a.Key, sp) && a.Fault != "" && !strings.HasSuffix(a.Fault, "slow") && a.Step < myPut {
+				failedAt = a.Step
+			}
+		}
+		if failedAt == 0 {
+			continue
+		}
+		w.sim.Probe("c25.later-partition-after-own-failure")
+		// the rating left healthy no later than right after that failure was recorded and never came back
+		if w.health.streakStart <= failedAt+2 {
+			w.sim.Fail("C25", "produce-acked-while-unhealthy", "partition %s/%d of a multi-partition produce was uploaded (step %d) and acknowledged although the upload failure of %s/%d earlier in the same request (step %d) had already left S3 rated %s, continuously since step %d", rec.topic, rec.part, myPut, sib.topic, sib.part, failedAt, w.health.lastState, w.health.streakStart)
+			return
+		}
+	}
+}
+
 func (w *w1) judgeHealthProduce(rec *produceRec, task string) {
 	if w.prop != "C25" {
+		return
+	}
+	w.judgeHealthWithinRequest(rec)
+	if w.sim.Failed() {
 		return
 	}
 	if !w.unhealthyThroughout(rec.invoke) {
@@ -157,6 +207,18 @@ func w1GenHealth(r *rand.Rand, c *simrt.Case, nclients, maxOps int) {
 	cfg["health_lat_warn_ms"] = pick[int64](r, 50, 500)
 	cfg["health_lat_crit_ms"] = pick[int64](r, 1000, 3000)
 	cfg["partitions"] = 2
+	if r.IntN(4) == 0 {
+		// one client, multi-partition requests, failing segment uploads: what happens to the later
+		// partitions of a request whose first partition's failures have just changed the rating
+		cfg["solo"] = 1
+		cfg["health_window_s"] = 60
+		cfg["health_err_warn_pct"], cfg["health_err_crit_pct"] = pick[int64](r, 10, 20, 40), pick[int64](r, 50, 60)
+		for i := 0; i < 2+r.IntN(5); i++ {
+			c.Program = append(c.Program, simrt.Op{Actor: 0, Kind: pick(r, "mproduce", "mproduce", "produce"), B: int64(r.IntN(2)), C: int64(1 + r.IntN(3)), D: pick[int64](r, 1, -1)})
+		}
+		c.Faults = append(c.Faults, simrt.Fault{Kind: "s3.fail_before", Op: "s3.put.segment", Nth: r.IntN(4), Count: 1 + r.IntN(3)})
+		return
+	}
 	for cl := 0; cl < nclients; cl++ {
 		n := 3 + r.IntN(maxOps+3)
 		for i := 0; i < n; i++ {
